@@ -9,9 +9,10 @@
      script  : table operations before the snapshot: [0; identity; model_context identities] add_model,
                [1; identity] remove_model
      rmoff, rloff : the copy of object i gets identity i + offset
-   observation := [1; hooks; [0]]                  pickling raises TypeError
+   observation := [1; hooks; [0]]                  pickling raises (no class does any more)
                 | [1; hooks; [1; rekey; behaviour]]
-     hooks  : 0 default / 1 LockedMachine / 2 GraphMachine __getstate__/__setstate__ in effect
+     hooks  : 0 default / 1 LockedMachine / 2 GraphMachine / 3 LockedGraphMachine (both protocols)
+              __getstate__/__setstate__ in effect
      rekey  : [tags of the copy's models; identities disjoint;
                keys of the ORIGINAL's model_context_map, model_graphs, queue dict, classified;
                keys of the COPY's model_context_map, classified; per model of the copy its contexts
